@@ -474,6 +474,23 @@ func (vt *v2T) scenC11() {
 			labels = append(labels, "finding/"+d.Key)
 		}
 	}
+	// edited variants: a URL scheme with a capital first letter (Normalize keeps the case of a word's first
+	// letter), and a notice line that ends in a hyphen (the line break after it leaves no EOL token)
+	for xi, n0 := 0, len(xs); xi < n0; xi++ {
+		x := string(xs[xi])
+		if y := strings.Replace(strings.Replace(x, "https://", "Https://", -1), "http://", "Https://", -1); y != x && vt.rng.Intn(2) == 0 {
+			xs = append(xs, []byte(y))
+			labels = append(labels, "cap-scheme/"+labels[xi])
+		}
+		if lines := strings.Split(x, "\n"); len(lines) > 3 && vt.rng.Intn(4) == 0 {
+			k := 1 + vt.rng.Intn(len(lines)-2)
+			if ex := v2Exempt(lines); !ex[k] && !ex[k-1] {
+				y := strings.Join(lines[:k], "\n") + "\nCopyright 2020 foo-\n" + strings.Join(lines[k:], "\n")
+				xs = append(xs, []byte(y))
+				labels = append(labels, "hyphen-notice/"+labels[xi])
+			}
+		}
+	}
 	for xi, x := range xs {
 		cp := append([]byte(nil), x...)
 		d0, w0 := len(c.c.docs), len(c.c.dict.words)
